@@ -222,6 +222,62 @@ pub fn sites(tier: Tier) -> Vec<Site> {
         sites.push(Site::new("helpers-32", n32 * 2, "binrw_parse_duration / binrw_write_duration::<u32, 1 | 10>: every wire value (thorough: all 2^32; quick: every 4099th and the last), read, written back, floor of the two neighbouring durations",
             move |i, acc| { let w = ((i / 2) * step).min(u32::MAX as u64); if i % 2 == 0 { one::<32, 1>(w, i, acc) } else { one::<32, 10>(w, i, acc) } }));
     }
+    // the one time value a connection sends on its own account: the ISI interval in handshake(), on both
+    // implementations - in range: on the wire exactly (floored to the millisecond); out of range: refused, and
+    // no ISI with some other interval leaves
+    {
+        use insim::insim::{Isi, IsiFlags};
+        let intervals: Vec<Duration> = vec![Duration::ZERO, Duration::from_millis(1), Duration::from_millis(999), Duration::from_millis(65_535), Duration::from_micros(65_535_999),
+            Duration::from_millis(65_536), Duration::from_secs(70), Duration::from_secs(3600), Duration::from_secs(1 << 32), Duration::MAX];
+        let flagsets = [IsiFlags::empty(), IsiFlags::MCI, IsiFlags::NLP, IsiFlags::MCI | IsiFlags::NLP, IsiFlags::all()];
+        let n = (intervals.len() * flagsets.len() * 2 * 2) as u64;
+        sites.push(Site::new("handshake-interval", n,
+            "handshake(ISI) on both implementations and modes x 10 intervals (5 in range, 5 beyond 65.535 s) x 5 flag sets: the wire interval is the millisecond floor, or the handshake is refused and no ISI leaves",
+            move |i, acc| {
+                acc.eval();
+                let mut j = i as usize;
+                let tokio_impl = j % 2 == 1; j /= 2;
+                let compressed = j % 2 == 0; j /= 2;
+                let flags = flagsets[j % flagsets.len()]; j /= flagsets.len();
+                let interval = intervals[j % intervals.len()];
+                let isi = Isi { interval, flags, iname: "verif".into(), ..Default::default() };
+                let inner = Arc::new(std::sync::Mutex::new(crate::e2::world::Inner::default()));
+                let world = crate::e2::world::World(inner.clone());
+                let mode = if compressed { Mode::Compressed } else { Mode::Uncompressed };
+                let label = format!("{} {mode:?} interval {interval:?} flags {flags:?}", if tokio_impl { "tokio" } else { "blocking" });
+                let replay = json!({"site": "handshake-interval", "index": i, "case": label});
+                let res: Result<Result<(), String>, String> = guard(|| {
+                    if tokio_impl {
+                        let rt = tokio::runtime::Builder::new_current_thread().enable_time().build().unwrap();
+                        rt.block_on(async {
+                            let mut f = insim::net::tokio_impl::Framed::new(Box::new(world), Codec::new(mode));
+                            f.handshake(isi.clone(), Duration::from_secs(5)).await.map_err(|e| e.to_string())
+                        })
+                    } else {
+                        let mut f = insim::net::blocking_impl::Framed::new(Box::new(world), Codec::new(mode));
+                        f.handshake(isi.clone()).map_err(|e| e.to_string())
+                    }
+                });
+                let written = inner.lock().unwrap().written.clone();
+                let in_range = interval.as_millis() <= 65_535;
+                match res {
+                    Err(p) if in_range => acc.violate(i, "C15|ISI|handshake|panic".into(), format!("{label}: {p}"), replay),
+                    Err(_) | Ok(Err(_)) if !in_range => {
+                        if written.is_empty() { acc.class("handshake-refused"); acc.nontrivial(); }
+                        else { acc.violate(i, "C15|ISI|handshake|refused-but-bytes-left".into(), format!("{label}: refused, yet {} byte(s) reached the transport", written.len()), replay); }
+                    },
+                    Ok(Ok(())) if !in_range => acc.violate(i, "C15|ISI|Interval|out-of-range-duration-accepted".into(), format!("{label}: does not fit the 16-bit field but the handshake sent {}", hex(&written[..written.len().min(16)])), replay),
+                    Ok(Err(e)) => acc.violate(i, "C15|ISI|handshake|in-range-duration-refused".into(), format!("{label}: {e}"), replay),
+                    Err(p) => acc.violate(i, "C15|ISI|handshake|panic".into(), format!("{label}: {p}"), replay),
+                    Ok(Ok(())) => {
+                        let want = (interval.as_millis() as u16).to_le_bytes();
+                        // Interval sits at frame offset 10..12
+                        if written.len() >= 12 && written[10..12] == want { acc.class("handshake-interval-exact"); acc.nontrivial(); }
+                        else { acc.violate(i, "C15|ISI|Interval|handshake-wire-value".into(), format!("{label}: the ISI on the wire is {}", hex(&written[..written.len().min(16)])), replay); }
+                    },
+                }
+            }));
+    }
     // encode side: rounding down, and refusal beyond the range
     {
         let mut cases: Vec<(usize, u64, u8)> = vec![];
